@@ -166,6 +166,16 @@ def fixed_corpus():
                      {'name': 'w1', 'else': True}]}
     add(D([A2, B2, W2], cross('ABW', 'AB', [['ExactlyK', 2, 'W', 'w0']])))
     add(D([A2, B2, W2], cross('ABW', 'AB')))
+    # Pin at a trial where the derived factor has no level (none valid), and at its first / last applicable trial
+    add(D([A2, B2, TRA], cross('ABR', 'AB', [['Pin', 0, 'R', 'r0']])))
+    add(D([A2, B2, TRA], cross('ABR', 'AB', [['Pin', -4, 'R', 'r0']])))
+    add(D([A2, B2, TRA], cross('ABR', 'AB', [['Pin', 1, 'R', 'r0']])))
+    add(D([A2, B2, TRA], cross('ABR', 'AB', [['Pin', -1, 'R', 'r1']])))
+    add(D([A2, B2, window('W', 'A', 2, stride=2)], cross('ABW', 'AB', [['Pin', 2, 'W', 'w0']])))
+    # constraints on a window factor that applies to no trial of the block
+    add(D([A3, B3, window('W', 'B', 2, start=3)], cross('ABW', 'B', [['ExactlyK', 2, 'W', 'w0']])))
+    add(D([A3, B3, window('W', 'B', 2, start=3)], cross('ABW', 'B', [['AtMostKInARow', 1, 'W', 'w0']])))
+    add(D([A3, B3, window('W', 'B', 2, start=3)], cross('ABW', 'B', [['Pin', 0, 'W', 'w0']])))
     # a two-trial preamble over a 3-level factor (3**2 preambles, not 3*2)
     add(D([A3, window('W', 'A', 3)], cross('AW', 'W')))
     # a window wider than the whole sequence (two trials), starting early: shifted source indices run past the grid
